@@ -636,7 +636,7 @@ class Gen:
                ("op_delete_listing", 4), ("op_reuse_traded_bucket", 6), ("op_fee_cycle", 3), ("op_advance", 9),
                ("op_registry", 7), ("op_transfer", 2), ("op_set_admin", 1)]
 
-    def reentry_program(self, v):
+    def reentry_program(self, v, depth=1):
         """What the hostile contract does when the marketplace hands it a transfer: forged hook calls, withdrawals and
         purchases of whatever is there, deposits with its own coins and honest tokens."""
         r = self.r
@@ -661,6 +661,14 @@ class Gen:
                 prog.append(E(h, {"k": "buy", "lid": int(r.choice(ls)["kid"]), "bid": int(r.choice(bs)["kid"])}))
             else:
                 prog.append(E(h, {"k": "fee_cycle"}))
+        # tree programs (model/ReentryDeep.v): a payout-bearing nested call may carry the program that runs if *it* is re-entered
+        if depth < 3 and r.random() < 0.4:
+            for i, n in enumerate(prog):
+                if n.get("t") == "exec" and n["msg"]["k"] in ("remove_bucket", "withdraw_purchased", "delete_listing", "buy") \
+                        and r.random() < 0.6:
+                    n = dict(n)
+                    n["reentry"] = self.reentry_program(v, depth + 1)
+                    prog[i] = n
         return prog
 
     def op_hostile_own(self, v):
